@@ -114,7 +114,7 @@ PROPS = {
             "(R-WIDTH) that no rewrite returns an operand or 1-bit literal for an operator of different result width. Does NOT "
             "decide constant-folding arithmetic, mask->slice, shift->composition, reassociation, comp bookkeeping or evaluation."
         ),
-        rules=[(R_cas.r_algtab, Q), (R_cas.r_width, Q)],
+        rules=[(R_cas.r_algtab, Q), (R_cas.r_width, Q), (R_cas.r_signview, Q)],
         level_text="partial: all 94 extracted table rows (guarded returns, negation pairs, sign composition, 23 operator symbols x round trip, cst folding operators) are compared with the reference; exhaustive over the rows, which the tests exercise only through a dozen expressions",
         level_note="Trusted: ref/bv_identities.json (hand-written from the operator definitions); the guarded-return extractor recognises conjunctions of e.X._is_K, e.r.value == k, e.op.symbol in/==, e.r.size == 1, str(e.l)==str(e.r); unrecognised returns are not decided and a floor on recognised rows turns mass non-recognition into an analysis error.",
         technique="table extraction from the AST compared with a vendored reference table (table subset-of reference)",
@@ -151,7 +151,7 @@ PROPS = {
             "simplifies (with caller-chosen, possibly widening options) only expressions of maps it created itself. Does NOT decide "
             "equivalence of in-place simplification nor printing/equality after unpickling."
         ),
-        rules=[(R_cas.r_oppure, Q), (R_cas.r_aliasret, Q), (R_cas.r_own_mapper, Q), (R_cas.r_sizeimm, Q), (R_cas.r_slotstate, Q), (R_own.r_ownmerge, Q), (R_own.r_mappure, Q), (R_own.r_deepcopy, Q), (R_cas.r_glyph, Q)],
+        rules=[(R_cas.r_oppure, Q), (R_cas.r_aliasret, Q), (R_cas.r_own_mapper, Q), (R_cas.r_sizeimm, Q), (R_cas.r_slotstate, Q), (R_own.r_ownmerge, Q), (R_own.r_mappure, Q), (R_own.r_deepcopy, Q), (R_cas.r_glyph, Q), (R_cas.r_signview, Q)],
         level_text="partial: effect analysis over the 203 non-mutator methods/functions of the expression algebra and slot/state table comparison for the 9 classes with custom pickling",
         level_note="Trusted: receiver provenance classifier; stores on results of eval/slicing/operators (possibly shared, e.g. slc.eval/mem.eval res.sf) are listed as undecided, not alarmed; the save/restore idiom of cst.signextend is accepted.",
         technique="effect (attribute-store) analysis with receiver provenance + table<->table comparison of pickling state",
@@ -190,7 +190,7 @@ PROPS = {
             "size-indexed register tables select registers of the indexing size. Does NOT decide "
             "ALU results, flag formulas, sub-register write rules, memory effects: anything needing a CPU or a reference interpreter."
         ),
-        rules=[(R_c06.r_isatab, Q), (R_c06.r_pc, Q), (R_c06.r_signed, Q), (R_c06.r_raw, Q), (R_c06.r_store, Q), (R_c06.r_cctab, Q), (R_c06.r_auxflag, Q), (R_c06.r_sizetab, Q)],
+        rules=[(R_c06.r_isatab, Q), (R_c06.r_pc, Q), (R_c06.r_signed, Q), (R_c06.r_raw, Q), (R_c06.r_store, Q), (R_c06.r_cctab, Q), (R_c06.r_auxflag, Q), (R_c06.r_sizetab, Q), (R_c06.r_dfstep, Q), (R_c06.r_rvsibling, Q)],
         level_text="partial: table = reference comparison over all 106 shipped RISC-V base specs and 32 condition-code rows, typestate counting of pc stores over the CFG of 74 semantics functions, hazard (read-after-write) scan over 68; the tests decode no RISC-V instruction at all",
         level_note="Trusted: ref/riscv_base.json and ref/x86_cc.json (written from the manuals); vstat.ispecmodel for bit positions; `//` in setup functions is crysp Bits concatenation LSB-first. A base instruction with no shipped spec is listed in the evidence, not alarmed.",
         technique="table = vendored reference comparison, typestate (store counting) on CFG, def-use hazard scan, exhaustive truth-table evaluation of a dict literal",
